@@ -2,6 +2,7 @@
 # Runs the thorough tier of the given checks from this checkout (works inside a `vp run` snapshot).
 export GOFLAGS=-mod=mod GOPROXY=off GOSUMDB=off GOTOOLCHAIN=local
 export VERIF_DIR=$(pwd)
+[ -n "$VP_RUN_REPO" ] && export VERIF_REPO=$VP_RUN_REPO
 mkdir -p bin evidence
 go build -o bin/vcheck ./cmd/vcheck || exit 2
 for c in "$@"; do
